@@ -68,7 +68,7 @@ def e2e_case(runner, r, oc, reqs, pend, kinds, regens, big=False):
                     dups = genlib.duplicate_tags("".join(lines))
                     reqs.append(dict(cmd="wf", lines=lines))
                     pend.append(("wf", dict(model=model, file=fn, dups=sorted(dups),
-                                            dups_known=model["kind"] == "uml" and findings.uml_dup_known_shape(dups)), None))
+                                            dups_known=model["kind"] == "uml" and findings.uml_dup_known_shape(dups, model)), None))
             # user edits in a random subset of the tag pairs of every generated file
             # (tags duplicated within a file are the recorded finding uml-overload-tag-collision:
             #  they are exercised by the witness probe, not by the random histories)
